@@ -168,6 +168,20 @@ func runNM(c *Ctx) (obls []Obl) {
 		} else {
 			a.bad("NM-number", "enumerate/primary", "primary is not set to (goroutine index == 0)", fn.Pos())
 		}
+		// what is numbered are the arguments of the goroutines' own stacks: the
+		// frames of a creation stack (a race report prints them with arguments)
+		// are not part of it
+		for b := range l.Body {
+			for _, in := range b.Instrs {
+				if fa, ok := in.(*ssa.FieldAddr); ok && addrLast(fa) == "CreatedBy" && okWalk {
+					okWalk = false
+					a.bad("NM-number", "enumerate/walk", "the enumeration reaches into the creation stacks (CreatedBy): pointers that occur only in creation frames use up numbers, so the names of the stacks' arguments have gaps and need not start at #1", in.Pos())
+				}
+			}
+		}
+		if !okWalk {
+			return
+		}
 		// every iteration over the calls walks that call's arguments
 		for _, il := range naturalLoops(fn) {
 			if il.Header == l.Header || !l.Body[il.Header] {
@@ -186,6 +200,13 @@ func runNM(c *Ctx) (obls []Obl) {
 				for _, ev := range p.Events {
 					if ev.Kind == EvCall && ev.Val.calleeIs(stackPkg, "(*Args).walk") {
 						walked = true
+						// what is numbered are the arguments of the goroutines'
+						// own stacks: the frames of a creation stack (a race
+						// report prints them with arguments) are not part of it
+						if len(ev.Val.Args) > 1 && strings.Contains(ev.Val.Args[1].String(), "CreatedBy") && okWalk {
+							okWalk = false
+							a.bad("NM-number", "enumerate/walk", "the arguments of creation-stack frames take part in the numbering ("+ev.Val.Args[1].String()+"): pointers that occur only there use up numbers, so the names of the stacks' arguments have gaps and need not start at #1", pathPos(p, fn))
+						}
 					}
 				}
 				if !walked && okWalk {
